@@ -118,10 +118,77 @@ log_bytes(const char *key, const unsigned char *b, size_t n)
 }
 
 struct scn {
-        int id, api, level, wrap, hist_bits, table, lbuf, mem, prefill, dictmode, dictlen, inlen, ncalls, tail_ai, tail_ao, cap;
+        int id, api, level, wrap, hist_bits, table, lbuf, mem, prefill, dictmode, dictlen, inlen, ncalls, tail_ai, tail_ao, cap, adapt;
         unsigned char *dict, *in;
         struct call *calls;
 };
+
+/* Adaptive schedules (scenario with ncalls < 0): the next call's (room class, hand over input, flush, end_of_stream) is the
+ * environment choice of the DeflateStream model least often taken so far from the control state the stream is in now - a
+ * coverage-guided walk over the model's (state, environment action) keys.  The calls made are recorded like any others; the
+ * driver turns them into an explicit schedule, so a replay file does not depend on this policy. */
+static unsigned short acov[64][3][2][3][2];
+static uint32_t arng;
+static uint32_t
+arnd(void)
+{
+        arng ^= arng << 13;
+        arng ^= arng >> 17;
+        arng ^= arng << 5;
+        return arng;
+}
+static struct call
+adapt_choose(struct scn *s, struct isal_zstream *z, size_t fed, int eos_set, int i)
+{
+        static const int big[] = { 8, 9, 15, 16, 17, 64, 300, 5000, 70000 };
+        static const int chunks[] = { 1, 2, 3, 8, 31, 64, 300, 4096, 20000 };
+        struct call c;
+        int st = z->internal_state.state & 63, room, give, fl, eos, best = 1 << 30, nb = 0, pick[4] = { 2, 1, 0, 1 };
+        size_t left = s->inlen - fed;
+        int buffered = z->internal_state.b_bytes_valid != z->internal_state.b_bytes_processed;
+        if (i > s->cap / 2) { /* drain: make sure the stream ends */
+                c.ai = (int) left;
+                c.ao = 1 << 16;
+                c.flush = 0;
+                c.eos = 1;
+                return c;
+        }
+        for (room = 0; room < 3; room++)
+                for (give = 0; give < 2; give++)
+                        for (fl = 0; fl < 3; fl++)
+                                for (eos = 0; eos < 2; eos++) {
+                                        int inp, n;
+                                        if (give && (left == 0 || z->avail_in > 0 || eos_set))
+                                                continue;
+                                        if (eos_set && !eos)
+                                                continue;
+                                        if (eos && !eos_set && !give && left > 0)
+                                                continue; /* end_of_stream is announced with or after the last chunk */
+                                        inp = z->avail_in > 0 || give || buffered;
+                                        n = acov[st][room][inp][fl][eos] * 4 + (int) (arnd() & 3);
+                                        if (n < best) {
+                                                best = n;
+                                                pick[0] = room;
+                                                pick[1] = give;
+                                                pick[2] = fl;
+                                                pick[3] = eos;
+                                        }
+                                        nb++;
+                                }
+        (void) nb;
+        room = pick[0];
+        give = pick[1];
+        fl = pick[2];
+        eos = pick[3];
+        acov[st][room][z->avail_in > 0 || give || buffered][fl][eos]++;
+        c.ao = room == 0 ? 0 : room == 1 ? 1 + (int) (arnd() % 7) : big[arnd() % 9];
+        c.ai = !give ? 0 : (eos && !eos_set) ? (int) left : chunks[arnd() % 9];
+        if (give && (size_t) c.ai > left)
+                c.ai = (int) left;
+        c.flush = fl;
+        c.eos = eos;
+        return c;
+}
 
 static void
 run_deflate(struct scn *s)
@@ -159,6 +226,8 @@ run_deflate(struct scn *s)
                         maxao = s->calls[i].ao;
         if ((size_t) s->tail_ao > maxao)
                 maxao = s->tail_ao;
+        if (s->adapt && maxao < 70000)
+                maxao = 70000;
         /* the context sits flush against a LEADING inaccessible page (reads before the struct fault) */
         zr = vh_region_get(sizeof(*z) + 64);
         z = (struct isal_zstream *) vh_place(&zr, sizeof(*z), VH_START, 0);
@@ -230,7 +299,9 @@ run_deflate(struct scn *s)
                 uint32_t ai0, ti0, to0;
                 unsigned char *o, *ni0, *no0;
                 int st0 = z->internal_state.state;
-                if (i < s->ncalls)
+                if (s->adapt)
+                        c = adapt_choose(s, z, fed, eos_set, i);
+                else if (i < s->ncalls)
                         c = s->calls[i];
                 else {
                         c.ai = s->tail_ai;
@@ -269,7 +340,7 @@ run_deflate(struct scn *s)
                 total_calls++;
                 if (faulted) {
                         total_faults++;
-                        fprintf(out, "{\"e\":\"Fault\",\"scn\":%d,\"seq\":%d,\"addr_rel_in\":%ld,\"addr_rel_ctx\":%ld,\"st0\":\"%s\"}\n", s->id, i,
+                        fprintf(out, "{\"e\":\"Fault\",\"scn\":%d,\"seq\":%d,\"flush\":%d,\"eos\":%d,\"ai\":%u,\"ao\":%d,\"addr_rel_in\":%ld,\"addr_rel_ctx\":%ld,\"st0\":\"%s\"}\n", s->id, i, c.flush, eos_set, ai0, c.ao,
                                 (long) ((unsigned char *) vh_fault_addr - (chunk ? chunk : (unsigned char *) z)),
                                 (long) ((unsigned char *) vh_fault_addr - (unsigned char *) z), zstate_name(st0));
                         why = "fault";
@@ -549,6 +620,13 @@ main(int argc, char **argv)
                 s.tail_ai = vh_rd(in);
                 s.tail_ao = vh_rd(in);
                 s.cap = vh_rd(in);
+                s.adapt = 0;
+                if (s.ncalls < 0) {
+                        s.adapt = 1;
+                        if (!arng)
+                                arng = (uint32_t) -s.ncalls | 1;
+                        s.ncalls = 0;
+                }
                 s.dict = vh_rd_bytes(in, s.dictlen);
                 s.in = vh_rd_bytes(in, s.inlen);
                 s.calls = malloc(sizeof(struct call) * (s.ncalls ? s.ncalls : 1));
